@@ -202,6 +202,11 @@ def path_ops(n, tier):
         for i in range(n + 1):
             for k in P:
                 ops.append(['insert', i, k])
+        if n:
+            # the same positions addressed from the end (list semantics: insert(-n) is a front insertion)
+            ops.append(['insert', -n, 1])
+            ops.append(['insert', -1, 0])
+            ops.append(['insert', n + 3, 2])
         for k in P:
             ops.append(['append', k])
         for i in range(n):
@@ -215,6 +220,8 @@ def path_ops(n, tier):
             ops.append(['slice_shrink', i, k])
     for i in range(n):
         ops.append(['del', i])
+    if n:
+        ops += [['set', -1, 0], ['set', -n, 2], ['del', -1], ['del', -n]]
     if n:
         ops += [['pop'], ['start=', 0], ['end=', 0], ['start=', 1], ['end=', 1]]
     if n >= 2:
